@@ -3,7 +3,7 @@
    specification (headers, versions, streams) in Proofs/XfrSpec.v. *)
 From DV Require Import Base.Prelude Model.XfrM Proofs.XfrSpec.
 From DV Require Proofs.XfrZone Proofs.XfrDiff.
-From DV Require Proofs.XfrSafety Proofs.XfrBasic Proofs.XfrIxfr Proofs.XfrAxfr Proofs.XfrFault Proofs.XfrOrder Proofs.XfrRefresh Proofs.XfrGlue Proofs.XfrTsig Proofs.XfrSections Proofs.XfrGroup Proofs.XfrSoaFaults Proofs.XfrTsigLink Proofs.XfrAddStart Proofs.XfrBody Proofs.XfrGeneral Proofs.XfrGeneralAxfr Proofs.XfrLegacy.
+From DV Require Proofs.XfrSafety Proofs.XfrBasic Proofs.XfrIxfr Proofs.XfrAxfr Proofs.XfrFault Proofs.XfrOrder Proofs.XfrRefresh Proofs.XfrGlue Proofs.XfrTsig Proofs.XfrSections Proofs.XfrGroup Proofs.XfrSoaFaults Proofs.XfrTsigLink Proofs.XfrAddStart Proofs.XfrBody Proofs.XfrGeneral Proofs.XfrGeneralAxfr Proofs.XfrLegacy Proofs.XfrGeneralOrder.
 From DV Require Model.TsigM.
 From Coq Require Import Sorting.Permutation.
 
@@ -807,6 +807,22 @@ Theorem axfr_early_end_rejected_general : forall v z0 ser ws q,
   exists e n, inbound_xfr z0 tAXFR ser false ws = (Error e z0, n).
 Proof. exact XfrGeneralAxfr.axfr_early_end_rejected_general. Qed.
 Print Assumptions axfr_early_end_rejected_general.
+
+(* versions of any content, the records of every section / of the body in any order (no repetitions) *)
+Theorem ixfr_converges_general_any_order : forall v0 chain z0 recs ws,
+  XfrGeneral.chain_ok_g v0 chain -> zeq z0 (zone_of v0) -> XfrGeneralOrder.ixfr_response_p v0 chain recs ->
+  chunking tIXFR recs ws ->
+  exists z' n, inbound_xfr z0 tIXFR (Some (v_serial v0)) false ws = (Done z', n)
+               /\ zeq z' (zone_of (last chain v0)).
+Proof. exact XfrGeneralOrder.ixfr_converges_general_any_order. Qed.
+Print Assumptions ixfr_converges_general_any_order.
+
+Theorem axfr_converges_general_any_order : forall v z0 ser B ws,
+  XfrGeneral.version_wf_g v -> Permutation B (body (v_rest v)) ->
+  chunking tAXFR (soa_rr v :: B ++ [soa_rr v]) ws ->
+  exists z' n, inbound_xfr z0 tAXFR ser false ws = (Done z', n) /\ zeq z' (zone_of v).
+Proof. exact XfrGeneralOrder.axfr_converges_general_any_order. Qed.
+Print Assumptions axfr_converges_general_any_order.
 
 (* the general forms subsume the restricted ones *)
 Theorem general_covers_restricted : forall v0 chain, chain_ok v0 chain -> XfrGeneral.chain_ok_g v0 chain.
